@@ -587,7 +587,7 @@ def _run_pe(case, M):
   if case.get('hostile'):
     oro_si = _hostile({'lnps': oro_si}, sym, case['hostile'])['lnps']
   oro = model.nondim_orography(oro_si, specs, dtype)
-  tref = model.tref_profile(rng, layers, str(rng.choice(['random', 'tropopause', 'constant', 'linear'])),
+  tref = model.tref_profile(rng, layers, str(rng.choice(['random', 'tropopause', 'constant', 'linear', 'cooling', 'isothermal_top'])),
                             centers=(bnd[1:] + bnd[:-1]) / 2)
   eqkw = {}
   if case.get('matmul'):
